@@ -18,6 +18,8 @@ use crate::{
 pub const ALPN: &[u8] = b"/iroh-sync/1";
 
 mod codec;
+#[cfg(iroh_docs_verif)]
+pub use codec::verif_export;
 
 /// Connect to a peer and sync a replica
 pub async fn connect_and_sync(
